@@ -24,3 +24,9 @@
   (ite (= c 4) "P-224" (ite (= c 5) "P-256" (ite (= c 6) "P-384" (ite (= c 7) "P-521"
   (ite (= c 8) "brainpoolP256r1" (ite (= c 9) "brainpoolP384r1" (ite (= c 10) "brainpoolP512r1"
   (ite (= c 11) "brainpoolP256t1" (ite (= c 12) "brainpoolP384t1" "brainpoolP512t1"))))))))))
+(declare-fun pow256 (Int) Int)
+(declare-fun bePad (Int Int) Bytes)          ; value as exactly n big-endian bytes
+(assert (forall ((c Int)) (! (<= (curveOrder c) (pow256 (curveBytes c))) :pattern ((curveBytes c)))))
+(assert (forall ((v Int) (n Int)) (! (= (be (bePad v n)) v) :pattern ((bePad v n)))))
+(declare-fun ecPoint (Int Int Int) Bytes)    ; uncompressed point of a curve
+(declare-fun pkcs1priv (Int) Bytes)          ; PKCS#1 DER of an RSA private key object
